@@ -340,6 +340,8 @@ class Interp:
             return tm.const(ty_bits(parse_ty(c['ty'])), int(c['bits']))
         if k == 'vec':
             return tm.concat([self.cst(e) for e in c['e']])
+        if k == 'struct':
+            return [self.cst(e) for e in c['e']]
         if k == 'zero':
             ty = parse_ty(c['ty'])
             if ty[0] == 'ptr':
@@ -740,7 +742,11 @@ class Interp:
                 self.env[ins['id']] = PtrSel(c, a, b)
                 return
             raise Unsupported('select of pointers')
-        if isinstance(a, list):
+        if isinstance(a, list) or isinstance(b, list):
+            if isinstance(a, list) and isinstance(b, list) and len(a) == len(b) and isinstance(c, T) and c.w == 1 \
+                    and all(isinstance(x, T) and isinstance(y, T) and x.w == y.w for x, y in zip(a, b)):
+                self.env[ins['id']] = [tm.select(c, x, y) for x, y in zip(a, b)]
+                return
             raise Unsupported('select of aggregates')
         ty = parse_ty(ins['ty'])
         n, w = lane_shape(ty)
